@@ -395,8 +395,58 @@ def gen_sync():
     write("Sync.lean", text)
 
 
+def gen_guards():
+    lib = strip_comments(open(os.path.join(REPO, "src/lib_priv.rs")).read())
+    cr = strip_comments(open(os.path.join(REPO, "src/client/receiver.rs")).read())
+    sr = strip_comments(open(os.path.join(REPO, "src/server/receiver.rs")).read())
+    br = strip_comments(open(os.path.join(REPO, "src/binreflect.rs")).read())
+
+    def unguarded(src):
+        """`X.entity(V)` / `X.entity_mut(V)` not preceded, in the same fn, by `get_entity(V)` / `get_entity_mut(V)`"""
+        n, sites = 0, []
+        fns = [m.start() for m in re.finditer(r"\bfn\s+\w+", src)] + [len(src)]
+        for a, b in zip(fns, fns[1:]):
+            body = src[a:b]
+            for m in re.finditer(r"\.\s*(entity|entity_mut)\(\s*\*?(\w+)\s*\)", body):
+                var = m.group(2)
+                before = body[: m.start()]
+                if not re.search(r"get_entity(_mut)?\(\s*\*?%s\s*\)" % re.escape(var), before):
+                    n += 1
+                    sites.append(var)
+        return n, sites
+
+    apply_body = fn_body(lib, "apply_component_change_from_network")
+    g_apply = bool(re.search(r"get_entity\(\s*e_id\s*\)", apply_body)) and unguarded(apply_body)[0] == 0
+    # client: the EntityParented arm
+    m = re.search(r"Message::EntityParented\s*\{.*?Message::EntityDelete", cr, flags=re.S)
+    if not m:
+        raise TranslateError("client receiver: EntityParented arm not found")
+    g_client = unguarded(m.group(0))[0] == 0 and "get_entity" in m.group(0)
+    m = re.search(r"Message::EntityParented\s*\{.*?Message::EntityDelete", sr, flags=re.S)
+    if not m:
+        raise TranslateError("server receiver: EntityParented arm not found")
+    g_server = unguarded(m.group(0))[0] == 0 and "get_entity" in m.group(0)
+    b2r = fn_body(br.split("#[cfg(test)]")[0], "bin_to_reflect")
+    unwraps = len(re.findall(r"\.unwrap\(\)|\.expect\(", b2r))
+    hdr = br[br.index("fn bin_to_reflect"):]
+    hdr = hdr[: hdr.index("{")]
+    g_decode = unwraps == 0 and "Option<" in hdr
+    total = unguarded(apply_body)[0] + unguarded(cr)[0] + unguarded(sr)[0]
+    text = "/-! GENERATED by /verif/translate/translate.py from src/lib_priv.rs, src/binreflect.rs, src/{client,server}/receiver.rs — do not edit. -/\nnamespace BevySync\nnamespace Generated\n\n"
+    text += "def guardApplyLooksUp : Bool := %s\n" % str(g_apply).lower()
+    text += "def guardClientParentLooksUp : Bool := %s\n" % str(g_client).lower()
+    text += "def guardServerParentLooksUp : Bool := %s\n" % str(g_server).lower()
+    text += "def guardDecodeTotal : Bool := %s\n" % str(g_decode).lower()
+    text += "/-- `.entity(v)` / `.entity_mut(v)` in the message handlers not dominated by a `get_entity(v)` in the same fn -/\n"
+    text += "def unguardedEntityAccesses : Nat := %d\n" % total
+    text += "def binToReflectUnwraps : Nat := %d\n" % unwraps
+    text += FOOTER
+    write("Guards.lean", text)
+
+
 def main():
     try:
+        gen_guards()
         gen_sync()
         gen_struct("src/networking/assets/mesh_serde.rs", "MeshData", "meshData", "MeshData.lean")
         gen_struct("src/networking/assets/image_serde.rs", "ImageData", "imageData", "ImageData.lean")
